@@ -208,6 +208,12 @@ def _seg(steps, end):
 _RI = _seg([], ["raise", ["input"]])
 
 CORPUS = [
+    # thrown into, caught, yields again, then resumed with send()/next(): the sent value must arrive, the return value too
+    {"tables": [[[_seg([], ["yield", ["const", 1], 1]), _RI, _RI],
+                 [_seg([], ["return", ["input"]]), _seg([], ["yield", ["const", 2], 2]), _RI],
+                 [_seg([], ["yield", ["input"], 1]), _RI, _RI]]],
+     "script": [["resume", 0, ["next"]], ["resume", 0, ["throw", 1001]], ["resume", 0, ["send", 7]], ["resume", 0, ["next"]],
+                ["resume", 0, ["throw", 1002]], ["resume", 0, ["send", 8]], ["resume", 0, ["send", 9]]]},
     # F1: x = yield 1; return x
     {"tables": [[[_seg([], ["yield", ["const", 1], 1]), _RI, _RI],
                  [_seg([], ["return", ["input"]]), _RI, _RI]]],
